@@ -127,7 +127,9 @@ def gen_plan(seed, tier="quick"):
                  # constructor keywords that must not change what a flat binary exposes: a ch_file= handed along (reader
                  # keywords reused from the compressed form of the recording), the metadata passed explicitly from elsewhere
                  "kw_ch_file": r.random() < 0.08, "kw_meta_file": r.random() < 0.08,
-                 "symlink": r.random() < 0.1})       # the data file is a symbolic link into a store, its .meta a regular file beside the link
+                 "symlink": r.random() < 0.1,
+                 # simulated seconds that pass between the phases of the run (open -> reads -> growth -> later reads / re-open)
+                 "clock_gaps": [r.choice([0.0, 0.0, 0.3, 2.0, 90.0, 7200.0]) for _ in range(4)]})       # the data file is a symbolic link into a store, its .meta a regular file beside the link
     return plan
 
 
@@ -169,7 +171,18 @@ def run_plan(plan):
         rm_scratch(root)
 
 
+def _tick(plan, i):
+    """The virtual clock (the `time` module seen by spikeglx) advances between the phases of a run."""
+    from sim.session import SimClock
+    gaps = plan.get("clock_gaps") or []
+    if i < len(gaps):
+        SimClock.now += gaps[i]
+
+
 def _run(plan, root):
+    from sim import session as _session
+    spikeglx.time = _session._FixedTime          # virtual clock: time()/monotonic()/sleep() are simulated
+    _session.SimClock.now = 1000.0
     nap = plan["nap"]
     nc = nap + 1
     dt = np.dtype(plan.get("dtype", "int16"))
@@ -311,6 +324,7 @@ def _run(plan, root):
         err = e
         tb = traceback.format_exc()
     B1 = state["size"]
+    _tick(plan, 0)
     stats["steps"] = state["ev"]
     if wf is not None:
         wf.close()
@@ -327,6 +341,7 @@ def _run(plan, root):
             raise Violation("C11.O1", f"{sigbase}:{type(err).__name__}",
                             f"constructing {plan['reader']} raised {type(err).__name__}: {err} | bytes={B0}->{B1} frame={frame} claimed={plan['claimed']} | {tb.splitlines()[-3:]}")
         _oracle(plan, sr, stream, frame, nc, fs, B0, B1, log, probe, sigbase)
+        _tick(plan, 1)
         if plan.get("reopen") is not None and plan["form"] == "bin":
             if plan["reader"] == "OnlineReader" and plan["reopen"]:
                 _o5(plan, sr, stream, frame, nc, state, binf, sigbase, fault, log)
@@ -371,6 +386,7 @@ def _run(plan, root):
                 state["size"] += nb
                 fault("growth_before_second_opening")
             B2 = state["size"]
+            _tick(plan, 3)
             probe("second_opening_same_path_same_process")
             try:
                 if same_obj is not None:
@@ -434,6 +450,7 @@ def _o5(plan, sr, stream, frame, nc, state, binf, sigbase, fault, log):
         g.write(stream[state["size"]: state["size"] + nb])
     state["size"] += nb
     fault("growth_after_online_reader_opened")
+    _tick(plan, 2)
     hi = state["size"] // frame
     raw = np.frombuffer(stream[: hi * frame], dtype=np.dtype(plan.get("dtype", "int16"))).reshape(hi, nc)
     order = np.asarray(sr.raw_channel_order)
